@@ -150,7 +150,9 @@ def evaluate(vec, r, props, style=0, morph_from=None, huge=False, chan_zero=None
             obj.nBytes        # the container asks for the size first and encodes afterwards
         enc = ab.encode(obj)
     except Exception as x:  # noqa: BLE001
-        return [("C01:valid_block_refused", f"{type(x).__name__}: {x}")] if "C01" in props else []
+        # a valid block that cannot be built or written at all: neither "encoding and decoding gives
+        # it back" (C01) nor "its bytes follow the layout" (C06) holds for it
+        return [(f"{p}:valid_block_refused", f"{type(x).__name__}: {x}") for p in ("C01", "C06") if p in props]
     if "C06" in props and enc != exp:
         out.append(("C06:bytes_differ", f"first difference at byte {first_diff(enc, exp)} of {len(enc)}/{len(exp)}"))
     if kind == "Entry":
@@ -183,8 +185,9 @@ def evaluate(vec, r, props, style=0, morph_from=None, huge=False, chan_zero=None
     try:
         dec, pos = ab.decode(kind, fmt, enc, b"\xAA\x55" * 9)
     except Exception as x:  # noqa: BLE001
-        if props & {"C01", "C02"}:
-            out.append(("C01:decode_failed", f"{type(x).__name__}: {x}"))
+        for p in ("C01", "C02", "C06"):
+            if p in props:
+                out.append((f"{p}:decode_failed", f"layout-conformant bytes are not decoded: {type(x).__name__}: {x}"))
         return out
     if "C02" in props:
         if pos != len(enc):
@@ -424,6 +427,34 @@ def file_equality(run, vecs, seed, limit):
     return n
 
 
+def sizes_after_edits(run, tier, seed):
+    """C02 for blocks that came about through edit histories (add / remove / assign / decode): tours
+    of the object models, the declared size compared with the encoding after every call, judged by
+    TLC (clause C02:declared_size_after_edits of TdfObjectsCore)"""
+    import random as _r
+    from . import objects, tours
+    rng = _r.Random(seed + 77)
+    trs = []
+    for kind in objects.KINDS_OF["C02"]:
+        init, adj, _ = objects.graph(kind)
+        k = 0
+        for labs in tours.tours(init, adj, rng, max_len=50, select=lambda s, d, lab: not lab.startswith("Lookup"),
+                                max_edges=1200 if tier == "quick" else 20000):
+            k += 1
+            trs.append(objects.run_tour(kind, labs, seed * 11 + k))
+    res, verdict = objects.validate(trs)
+    run.cov["tlc_runs"].append(dict(name="TRACE object histories (declared size after edits)", traces=len(trs), **res.summary()))
+    for tid, cl in verdict.items():
+        mine = [c for c in cl if c[1].startswith("C02:")]
+        if mine:
+            tr = trs[tid - 1]
+            ev = tr["steps"][mine[0][0] - 1]
+            run.violation(f"{mine[0][1]} at step {mine[0][0]} on {tr['kind']}: after call {json.dumps(ev['o'])} the block declares a "
+                          f"size that its encoding does not have", dict(kind="codec-objects", labels=tr["meta"]["labels"],
+                                                                     okind=tr["meta"]["kind"], seed=tr["meta"]["seed"]))
+    return sum(len(t["steps"]) for t in trs)
+
+
 def real_sized(run, prop, tier, seed, vecs):
     """M2 / M3: the exported layout on real-sized data; returns the number of cases"""
     from . import bigdata
@@ -478,7 +509,7 @@ def check(prop, tier, seed, replay=None):
     if replay:
         run.is_replay = True
         rp = json.load(open(replay))["replay"]
-        if rp.get("kind") in ("codec-boundary", "codec-file-eq"):
+        if rp.get("kind") in ("codec-boundary", "codec-file-eq", "codec-objects"):
             return check(prop, "quick", seed)   # these scenarios are cheap: the replay is the quick run itself
         if rp.get("kind") in ("bigblock", "capture", "header"):
             from . import bigdata
@@ -586,6 +617,7 @@ def check(prop, tier, seed, replay=None):
     n_eval += real_sized(run, prop, tier, seed, vecs)
     if prop == "C02":
         n_eval += boundary_texts(run, vecs)
+        n_eval += sizes_after_edits(run, tier, seed)
     if prop == "C14":
         nf = file_equality(run, vecs, seed, 40 if tier == "quick" else 300)
         run.cov["file_pairs_compared"] = nf
